@@ -339,6 +339,7 @@ func checkC29(w *World, r *Run) {
 		}
 		r.Check(bad == "", ruleQuery, "uriEncode's other replacements map between equivalent encodings", ue.Pos(), fmt.Sprint(repl), "replacement(s) "+bad+"change the value")
 	}
+	checkC29EscapeBound(w, r)
 	r.NotCovered("everything else: acceptance of all SDK-generated requests is a runtime comparison against the SDK signer; header canonicalisation (whitespace folding), presign query parameters, time handling")
 	_ = types.Universe
 }
